@@ -231,7 +231,7 @@ def check(run):
     run.ob('Z2/canary-registered-only-for-a-newly-created-thread-state', fn, 'if (ts == NULL) { PyGILState_Ensure(); thread_canary_register(ts); }', ok, tu.where(tu.func(fn)))
     rets = [rules.return_value(n) for n in g.nodes if n.kind == 'return' and n.id in g.live()]
     run.ob('Z2/every-branch-returns-a-gil-state', fn, 'returns %s' % rets, len(rets) == 3 and all(r in ('result', '0', '1', 'PyGILState_LOCKED', 'PyGILState_UNLOCKED') for r in rets), tu.where(tu.func(fn)))
-    cnt = [n for n in g.nodes if n.ast is not None and n.kind == 'stmt' and stmt_text(n.ast).replace(' ', '') in ('ts->gilstate_counter++', '++ts->gilstate_counter', 'ts->gilstate_counter+=1')]
+    cnt = [n for n in g.nodes if n.ast is not None and n.kind == 'stmt' and rules.is_increment(n.ast, 'ts->gilstate_counter')]
     ok = len(cnt) >= 1 and all(bool(rules.nonnull_facts('ts') & g.fact_texts(c_.id)) for c_ in cnt)
     # gil_release always ends in PyGILState_Release, which decrements: *every* return taken with an existing
     # thread state must have passed an increment (also the "GIL already held" one)
@@ -247,7 +247,7 @@ def check(run):
     fz = [n for n in g2.nodes if n.ast is not None and cx.calls_in(n.ast, 'thread_canary_free_zombies')]
     ok = len(fz) == 1 and all(g2.must_precede(n.id, [fz[0].id]) for n in firstcall if n.id != fz[0].id)
     run.ob('Z2/zombies-freed-before-registering', 'thread_canary_register', 'thread_canary_free_zombies() first', ok, tu.where(tu.func('thread_canary_register')))
-    keep = [n for n in g2.nodes if n.ast is not None and n.kind == 'stmt' and stmt_text(n.ast) == 'tstate->gilstate_counter++']
+    keep = [n for n in g2.nodes if n.ast is not None and n.kind == 'stmt' and rules.is_increment(n.ast, 'tstate->gilstate_counter')]
     st = [n for n in g2.nodes if n.ast is not None and any(cx.lhs_text(l) == 'tls->local_thread_canary' for l, r, op, _x in cx.assignments(n.ast))]
     ok = len(keep) == 1 and len(st) == 1 and g2.must_precede(keep[0].id, [st[0].id])
     run.ob('Z2/thread-state-pinned-once-canary-is-installed', 'thread_canary_register', 'tls->local_thread_canary = canary; tstate->gilstate_counter++', ok, tu.where(tu.func('thread_canary_register')))
